@@ -25,13 +25,34 @@ func init() {
 				"information keeps an ECS record exactly when the decoded option's subnet is not the zero value (so a /0 opt-out is " +
 				"kept), and a malformed option is answered with FORMERR without calling the next stage.",
 			NotCovered: "the GeoIP data itself and the scope arithmetic of upstream answers; that the upstream honours the option.",
-			Rules: map[string]string{"C05-RC": "class rules (error chains, shadowed results, character classes, crossed arguments, pool constructors, array pools, loop completeness, loop-carried buffers, replacing setters, complete clones, Grow arithmetic, pooled-buffer escape, sorted searches, fresh decode targets, per-iteration objects, whole-message copies, codec guards) over the packages this property rests on", "C05-R13": "caches store and hand out clones (shared with C07-R4)", "C05-R12": "no slice built on a pooled byte buffer that the function gives back is stored into a longer-lived object (expected count today: zero Get/Put pairs in this code; positive instances are the seeded changes)", "C05-R11": "every maxminddb Lookup / Network call decodes into a zero value created for that call (the decoder leaves absent fields untouched)", "C05-R10": "geoip.File.Refresh: no path from installing new databases to the return skips clearing either lookup cache", "C05-R1": "handler decision tree and upstream-subnet provenance", "C05-R2": "who writes cacheRequest.subnet",
+			Rules: map[string]string{"C05-R14": "a query with more than one OPT record is answered with FORMERR and never reaches the handlers, which read and replace the client subnet in the last OPT record only (accept-gate table shared with C01-R1; table of the counting helper over additional sections of up to three records)", "C05-RC": "class rules (error chains, shadowed results, character classes, crossed arguments, pool constructors, array pools, loop completeness, loop-carried buffers, replacing setters, complete clones, Grow arithmetic, pooled-buffer escape, sorted searches, fresh decode targets, per-iteration objects, whole-message copies, codec guards) over the packages this property rests on", "C05-R13": "caches store and hand out clones (shared with C07-R4)", "C05-R12": "no slice built on a pooled byte buffer that the function gives back is stored into a longer-lived object (expected count today: zero Get/Put pairs in this code; positive instances are the seeded changes)", "C05-R11": "every maxminddb Lookup / Network call decodes into a zero value created for that call (the decoder leaves absent fields untouched)", "C05-R10": "geoip.File.Refresh: no path from installing new databases to the return skips clearing either lookup cache", "C05-R1": "handler decision tree and upstream-subnet provenance", "C05-R2": "who writes cacheRequest.subnet",
 				"C05-R3": "lookup order and opt-out gate", "C05-R4": "echo gates and setECS table", "C05-R5": "ECS record / FORMERR tables"},
 		}})
 }
 
 func runC05(c *an.Ctx) {
 	classSweep(c, "C05")
+	// ---- R14: the client's options are read and replaced in the last OPT record only (IsEdns0), so a query with more
+	// than one OPT record never reaches the handlers: the accept gate answers FORMERR (shared with C01-R1), and the
+	// helper that recognises such a query counts every OPT record of the additional section
+	c.Floor("C05-R14", 2)
+	c.Borrow("C05-R14", runC01, func(o an.Obligation) bool { return o.Rule == "C01-R1" })
+	decide(c, "C05-R14", "dnsserver.hasMultipleOPT", an.DecideCfg{
+		Dom: an.Domain{"len(p0.Extra)": an.Ints(0, 1, 2, 3),
+			"(p0.Extra[0].Header().Rrtype == 41)": an.Bools, "(p0.Extra[1].Header().Rrtype == 41)": an.Bools, "(p0.Extra[2].Header().Rrtype == 41)": an.Bools},
+		Expect: func(f an.Features, o an.AOutcome) string {
+			n := 0
+			for i := int64(0); i < f.I("len(p0.Extra)"); i++ {
+				if f.B(fmt.Sprintf("(p0.Extra[%d].Header().Rrtype == 41)", i)) {
+					n++
+				}
+			}
+			if want := fmt.Sprint(n > 1); o.Exit != "return" || o.RetString() != want {
+				return want + " (true exactly when more than one record of the additional section is an OPT record, wherever they stand)"
+			}
+			return ""
+		},
+	})
 	dnssvcWiring(c, "C05-R9", func(dst, src string) bool {
 		n := normName(dst) + " " + normName(src)
 		return strings.Contains(n, "geoip") || strings.Contains(n, "ecscount")
